@@ -15,5 +15,5 @@ def readSpec : ReadSpec :=
     tsVCol := 1,
     tsEnergyCol := 2 }
 def dumpSpec : DumpSpec :=
-  TopSearch.IO.DumpSpec.standard
+  { tsData := [.i, .i, .f5], minData := [.i, .f5], coords := .full, pairlist := .i }
 end TopSearch.Gen.IOSpec
